@@ -336,3 +336,61 @@ func VerifC15_RequestEncoder() {
 	verifAssert("req-enc-body-set", r.Body != nil)
 	verifAssert("req-dec-json", verifDecKind(RequestDecoder(r)) == kJSON)
 }
+
+// VerifC15_PresetContentType: the handler (or a middleware) has already set a
+// response Content-Type before goa's encoder runs.
+func VerifC15_PresetContentType() {
+	var preset string
+	withParams, hasPlus := false, false
+	switch nondetChoice("preset", 5) {
+	case 0:
+		preset = "application/vnd.api"
+	case 1:
+		preset = "application/" + nondetString("sub", 2)
+		verifAssume(visible(preset))
+	case 2:
+		preset = "text/plain; charset=utf-8"
+		withParams = true
+	case 3:
+		preset = "application/vnd.x+json"
+		hasPlus = true
+	default:
+		preset = "application/vnd.y;v=" + nondetString("ver", 1)
+		verifAssume(visible(preset))
+		withParams = true
+	}
+	// precondition on the caller: the header it set is a well-formed media type
+	_, _, perr := mime.ParseMediaType(preset)
+	verifAssume(perr == nil)
+	accepts := []string{"", "application/json", "application/xml", "application/gob", "text/plain"}
+	accept := accepts[nondetChoice("accept", len(accepts))]
+	ek, dk, hdr, _, _ := verifRespRoundTrip(accept, "", preset)
+	verifObserve("hdr", hdr)
+	verifAssert("preset:encoder-not-nil", ek != kNil && ek != kOther)
+	changed := hdr != preset
+	for i := 0; i < len(preset); i++ {
+		if preset[i] == '+' {
+			hasPlus = true
+		}
+	}
+	switch {
+	case !changed:
+		// goa left the caller's header alone: the caller announced the format
+	case withParams:
+		verifAssert("preset:encoder-matches-rewritten-header-with-parameters", ek == dk)
+	default:
+		verifAssert("preset:encoder-matches-rewritten-header", ek == dk)
+	}
+	if !changed && !hasPlus && (ek == kJSON || ek == kXML) {
+		verifAssert("preset:suffix-appended-for-json-xml", false)
+	}
+}
+
+func visible(s string) bool {
+	for i := 0; i < len(s); i++ {
+		if s[i] <= 0x20 || s[i] >= 0x7f {
+			return false
+		}
+	}
+	return true
+}
